@@ -20,10 +20,25 @@ The check
      signature at exactly the observed counter values (trace validation); per script the partition
      of the runs by REAL signature must equal the partition by MODEL signature;
  (c) checks the property itself on real ufl for a corpus of hand written recipes (forms with several
-     constants / coefficients / geometric quantities on 1-2 meshes, index notation, variables,
+     constants / coefficients / geometric quantities on 1-2 meshes, constants created crosswise on
+     two meshes, function spaces over a MeshSequence, index notation, variables,
      Zero-with-free-index branches, mixed elements, measures with subdomain ids and metadata, several
      integrals, ExternalOperator / Interpolate, derivative / action / adjoint / lhs / rhs /
-     compute_form_data) and seeded random scripts over a richer instruction set.
+     compute_form_data) and seeded random scripts over a richer instruction set;
+ (d) cross family: terminals whose repr / signature data embed SEVERAL counters (constants on two
+     meshes created in every order: mesh id and count; a coefficient on the mixed space over a
+     MeshSequence: two mesh ids and a count).  The histories are PLACEMENTS (Boundaries of
+     SigCounters.tla): for every counted class the counter stands at B - q for a digit boundary B in
+     {10, 100, 1000} and q = 0 .. (objects of the class the script creates) - 1, for ALL classes at
+     once -- every digit-length pattern of the numbers one program embeds, crossed with every
+     creation order (the scripts).  TLC proves SigInvariant on the intended machine over that space
+     and prints every behaviour with its model signature; EVERY behaviour is replayed on the real
+     code with explicit numbering (the numbers the counters would give are passed to the public
+     constructors: ufl_id= / count=; hundreds of placements per interpreter), a seeded sample with
+     real histories (a fresh interpreter meets at most one placement per digit boundary, counters
+     only grow); all runs of a script must have one signature and the partition by real signature
+     must be the partition by model signature.  A deviation is reported only after it has been
+     reproduced in fresh interpreters with real histories.
 
 A run = one program built in a FRESH interpreter (started with a given PYTHONHASHSEED) after a prior
 history: objects of the counted classes created and dropped by the harness, and the earlier steps of
@@ -40,6 +55,8 @@ interpreters whose histories differ in ONE counter (or, failing that, in the who
 the hash seed), and reported with a mechanism fingerprint, e.g.
   C12:operand-order-by-repr:Constant:digit-boundary
   C12:operand-order-by-repr:GeometricQuantity:mesh-id-digit-boundary
+  C12:operand-order-by-repr:Constant:combination:digit-boundary   (only several counters together)
+  C12:raw-count-in-signature:Coefficient:Mesh
   C12:raw-index-count-in-signature:Zero-free-index
   C12:hashseed:<what>
 """
@@ -102,8 +119,8 @@ class Env:
         self.M = MixedElement
         self._spaces = {}
 
-    def mesh(self):
-        return self.ufl.Mesh(self.L(self.cell, 1, (2,)))
+    def mesh(self, ufl_id=None):
+        return self.ufl.Mesh(self.L(self.cell, 1, (2,)), ufl_id=ufl_id)
 
     def element(self, kind):
         L, c = self.L, self.cell
@@ -123,6 +140,15 @@ class Env:
         k = (id(mesh), kind)
         if k not in self._spaces:
             self._spaces[k] = (mesh, self.ufl.FunctionSpace(mesh, self.element(kind)))
+        return self._spaces[k][1]
+
+    def seqspace(self, *meshes):
+        """The mixed space (P1 x P2 x P1 ...) over the MeshSequence of the given meshes (as in
+        test/test_mixed_function_space_with_mesh_sequence.py)."""
+        k = tuple(id(m) for m in meshes)
+        if k not in self._spaces:
+            el = self.M([self.L(self.cell, 1 + n % 2) for n in range(len(meshes))], make_cell_sequence=True)
+            self._spaces[k] = (meshes, self.ufl.FunctionSpace(self.ufl.MeshSequence(list(meshes)), el))
         return self._spaces[k][1]
 
 
@@ -186,9 +212,15 @@ def perform_history(delta):
 GEO_KINDS = ["CellVolume", "Circumradius", "CellDiameter", "SpatialCoordinate"]
 
 
-def run_script(script, E):
+SIM_OPS = {"mesh", "const", "vconst", "coef", "vcoef", "tcoef", "mcoef", "qcoef", "scoef", "geo", "index", "idx", "idx2", "comp", "sum", "sub", "prod", "zeromul", "cond", "var", "lit", "neg"}
+
+
+def run_script(script, E, sim=None):
     """Execute a script (list of {"op", "a", "b", "c", "k"}; a, b, c are 1-based store positions).
-    Returns the store."""
+    Returns the store.  sim = None: every constructor takes its number from the live global counter.
+    sim = {class: value}: EXPLICIT NUMBERING -- the dict stands for the global counters; every
+    counted object is constructed with the number its counter would give (`ufl_id=` / `count=`
+    arguments of the public constructors) and the dict is advanced."""
     import ufl
     import ufl.classes as C
     from ufl.core.multiindex import Index
@@ -198,17 +230,28 @@ def run_script(script, E):
     def g(p):
         return S[p - 1]
 
+    def num(kind):
+        """The explicit number of the next object of a counted class (None: use the live counter)."""
+        if sim is None:
+            return None
+        sim[kind] += 1
+        return sim[kind] - 1
+
     for ins in script:
         op = ins["op"]
         a, b, c, k = ins.get("a", 0), ins.get("b", 0), ins.get("c", 0), ins.get("k")
+        if sim is not None and op not in SIM_OPS:
+            raise ValueError(f"instruction {op!r} has no explicit numbering")
         if op == "mesh":
-            r = E.mesh()
+            r = E.mesh(num("Mesh"))
         elif op == "const":
-            r = C.Constant(g(a))
+            r = C.Constant(g(a), count=num("Constant"))
         elif op == "vconst":
-            r = C.Constant(g(a), shape=(2,))
+            r = C.Constant(g(a), shape=(2,), count=num("Constant"))
         elif op in ("coef", "vcoef", "tcoef", "mcoef", "qcoef"):
-            r = C.Coefficient(E.space(g(a), {"coef": "s", "vcoef": "v", "tcoef": "t", "mcoef": "m", "qcoef": "s2"}[op]))
+            r = C.Coefficient(E.space(g(a), {"coef": "s", "vcoef": "v", "tcoef": "t", "mcoef": "m", "qcoef": "s2"}[op]), count=num("Coefficient"))
+        elif op == "scoef":  # coefficient on the mixed space over MeshSequence([a, b])
+            r = C.Coefficient(E.seqspace(g(a), g(b)), count=num("Coefficient"))
         elif op == "arg":
             r = C.Argument(E.space(g(a), "s"), int(k))
         elif op == "varg":
@@ -216,7 +259,7 @@ def run_script(script, E):
         elif op == "geo":
             r = getattr(C, k or "CellVolume")(g(a))
         elif op == "index":
-            r = Index()
+            r = Index(num("Index"))
         elif op == "lit":
             r = ufl.as_ufl(k)
         elif op == "idx":
@@ -244,7 +287,7 @@ def run_script(script, E):
         elif op == "cond":
             r = ufl.conditional(ufl.lt(g(a), 0), g(b), g(c))
         elif op == "var":
-            r = ufl.variable(g(a))
+            r = ufl.variable(g(a)) if sim is None else C.Variable(ufl.as_ufl(g(a)), C.Label(num("Label")))
         elif op == "diffv":
             r = ufl.diff(g(a), g(b))
         elif op in ("inner", "dot", "outer"):
@@ -281,11 +324,11 @@ def run_script(script, E):
     return S
 
 
-def script_outputs(script, E):
+def script_outputs(script, E, sim=None):
     import ufl
     from ufl.classes import Expr, Form
 
-    S = run_script(script, E)
+    S = run_script(script, E, sim)
     last = S[-1]
     if isinstance(last, Form):
         return {"form": last}
@@ -357,6 +400,36 @@ def r_const_two_meshes(E):
     c1, c2 = ufl.Constant(m1), ufl.Constant(m2)
     f = ufl.Coefficient(E.space(m1))
     return {"form": c1 * c2 * f * ufl.dx(m1), "form_b": (c2 + c1) * ufl.dx(m2)}
+
+
+@recipe
+def r_const_crosswise(E):
+    """Two constants on two meshes, created in the opposite order of their meshes: each repr embeds
+    two counters (mesh id, count) and between the two reprs both numbers differ, in opposite
+    directions."""
+    ufl, (m1, m2) = _std(E, 2)
+    cb, ca = ufl.Constant(m2), ufl.Constant(m1)
+    f = ufl.Coefficient(E.space(m1))
+    return {"form": ca * cb * f * ufl.dx(m1), "form_sum": (cb + ca) * f * ufl.dx(m2), "expr": cb * ca + ca}
+
+
+@recipe
+def r_mesh_sequence(E):
+    """Coefficients and a test function on the mixed space over a MeshSequence (built as in
+    test/test_mixed_function_space_with_mesh_sequence.py), terminals on the component meshes."""
+    ufl, (m0, m1) = _std(E, 2)
+    V = E.seqspace(m0, m1)
+    f, g = ufl.Coefficient(V), ufl.Coefficient(V)
+    f0, f1 = ufl.split(f)
+    g0, g1 = ufl.split(g)
+    v0, v1 = ufl.split(ufl.TestFunction(V))
+    u1 = ufl.TrialFunction(E.space(m1, "s2"))
+    c0, c1 = ufl.Constant(m0), ufl.Constant(m1)
+    x1 = ufl.SpatialCoordinate(m1)
+    dx0 = ufl.Measure("dx", m0)
+    dx1 = ufl.Measure("dx", m1, intersect_measures=(ufl.Measure("dx", m0),))
+    F = c1 * c0 * f0 * g0 * v0 * dx0 + x1[1] * f0 * g1 * ufl.inner(ufl.grad(f1), ufl.grad(v1)) * dx1(7)
+    return {"form": F, "form_bilinear": c1 * f0 * u1 * v0 * dx1, "expr": g1 * f0 * c1 * c0}
 
 
 @recipe
@@ -770,11 +843,13 @@ def _comm_nodes(d, memo, acc):
             _comm_nodes(o, memo, acc)
 
 
-def build_outputs(prog, E, counters):
+def build_outputs(prog, E, counters, sim=None):
     import ufl
 
     if prog["kind"] == "script":
-        return script_outputs(prog["script"], E)
+        return script_outputs(prog["script"], E, sim)
+    if sim is not None:
+        raise ValueError("explicit numbering is available for scripts only")
     if prog["kind"] == "recipe":
         return RECIPES[prog["name"]](E)
     if prog["kind"] == "selftest-order-dependent":
@@ -792,8 +867,11 @@ def build_outputs(prog, E, counters):
 def execute_chain(job):
     """Runs in a fresh interpreter.  For every step: extend the prior history
     so that every counter named in `targets` stands at base + target (if it is already beyond:
-    leave it, or skip the step when it is `exact`), run the program, record the observables and the
-    effective shift of every counter at the moment the program started."""
+    leave it, or skip the step when it is `exact`; exact = "targets": only the named counters have to
+    be met exactly), run the program, record the observables and the
+    effective shift of every counter at the moment the program started.  A step with `sim` runs the
+    script with EXPLICIT NUMBERING instead (run_script): no history is performed, the numbers
+    base + target are passed to the constructors; its recorded shift is the simulated one."""
     base = read_counters()
     out = []
     table = {}
@@ -803,17 +881,23 @@ def execute_chain(job):
         targets = dict(step.get("targets") or {})
         pk = json.dumps(step["program"], sort_keys=True)
         delta = {k: base[k] + int(v) - cur[k] for k, v in targets.items()}
-        if step.get("exact"):
-            if any(d < 0 for d in delta.values()) or any(cur[k] != base[k] for k in KINDS if k not in targets):
-                out.append({"ok": False, "skipped": True})
-                continue
-        perform_history({k: d for k, d in delta.items() if d > 0})
-        start = read_counters()
-        res = {"eff": {k: start[k] - base[k] for k in KINDS}}
+        sim = None
+        if step.get("sim"):
+            sim = {k: base[k] + int(targets.get(k, 0)) for k in KINDS}
+            start = dict(sim)
+            res = {"eff": {k: start[k] - base[k] for k in KINDS}, "sim": True}
+        else:
+            if step.get("exact"):
+                if any(d < 0 for d in delta.values()) or (step["exact"] != "targets" and any(cur[k] != base[k] for k in KINDS if k not in targets)):
+                    out.append({"ok": False, "skipped": True})
+                    continue
+            perform_history({k: d for k, d in delta.items() if d > 0})
+            start = read_counters()
+            res = {"eff": {k: start[k] - base[k] for k in KINDS}}
         t0 = time.time()
         try:
-            outputs = with_renumbered(build_outputs(step["program"], Env(), start))
-            end = read_counters()
+            outputs = with_renumbered(build_outputs(step["program"], Env(), start, sim))
+            end = sim if sim is not None else read_counters()
             created[pk] = {k: end[k] - start[k] for k in KINDS}
             res["sigs"] = signatures(outputs)
             # structure dumps, shared between the steps of the chain (most are identical)
@@ -933,12 +1017,18 @@ class Pool:
 
 TC_NAMES = "Constant Coefficient CellVolume Zero MultiIndex Label Sum Product IndexSum Indexed Conditional LT Variable".split()
 MODEL_OFFSETS = [0, 1, 8, 9, 10, 90, 98, 99, 100]
-OPS = ["mesh", "const", "coef", "vcoef", "geo", "index", "idx", "sum", "prod", "zeromul", "cond", "var"]
+OPS = ["mesh", "const", "coef", "vcoef", "scoef", "geo", "index", "idx", "comp", "sum", "prod", "zeromul", "cond", "var"]
 
-# script families (Caps of SigCounters.tla)
+# script families (Caps of SigCounters.tla; an instruction that is not named has cap 0)
 FAM_CONST = dict(mesh=2, const=3, coef=1, vcoef=0, geo=2, index=0, idx=0, sum=2, prod=2, zeromul=0, cond=0, var=1)
 FAM_INDEX = dict(mesh=1, const=0, coef=1, vcoef=1, geo=0, index=2, idx=2, sum=1, prod=2, zeromul=1, cond=1, var=0)
 FAM_SMALL = dict(mesh=2, const=2, coef=1, vcoef=1, geo=1, index=1, idx=1, sum=1, prod=2, zeromul=1, cond=1, var=1)
+# terminals whose repr / signature data embed SEVERAL counters: constants on two meshes created in
+# every order, a coefficient on the mixed space over a MeshSequence; run with PLACEMENT histories
+# (Boundaries of SigCounters.tla) over all counters at once
+FAM_CROSS = dict(mesh=2, const=2, scoef=1, comp=1, sum=1, prod=1)
+FAM_CROSS_T = dict(mesh=2, const=3, scoef=1, comp=1, sum=1, prod=2)
+CROSS_BOUNDARIES = [10, 100, 1000]
 
 
 def real_typecodes():
@@ -947,22 +1037,25 @@ def real_typecodes():
     return {n: int(getattr(C, n)._ufl_typecode_) for n in TC_NAMES}
 
 
-def mc_text(base, caps, cmp_of):
+def mc_text(base, caps, cmp_of, offsets=None, boundaries=(), bump_kinds=None):
+    offsets = MODEL_OFFSETS if offsets is None else offsets
+    bump_kinds = KINDS5 if bump_kinds is None else bump_kinds
     return (
         "---- MODULE MC_SigCounters ----\nEXTENDS SigCounters\n"
         f"MCTC == {tlc.tla(real_typecodes())}\n"
         f"MCBase == {tlc.tla({k: base[k] for k in KINDS5})}\n"
         f"MCCmpOf == {tlc.tla(cmp_of)}\n"
-        f"MCOffsets == {{{', '.join(map(str, MODEL_OFFSETS))}}}\n"
-        f"MCBumpKinds == {{{', '.join(json.dumps(k) for k in KINDS5)}}}\n"
-        f"MCCaps == {tlc.tla({o: caps[o] for o in OPS})}\n"
+        f"MCOffsets == {{{', '.join(map(str, offsets))}}}\n"
+        f"MCBoundaries == {{{', '.join(map(str, boundaries))}}}\n"
+        f"MCBumpKinds == {{{', '.join(json.dumps(k) for k in bump_kinds)}}}\n"
+        f"MCCaps == {tlc.tla({o: caps.get(o, 0) for o in OPS})}\n"
         "====\n"
     )
 
 
 def cfg_text(comparator, zerosig, maxbumped, maxsteps, emit, invariants):
     return (
-        "CONSTANTS TC <- MCTC\nBase <- MCBase\nComparatorOf <- MCCmpOf\nOffsets <- MCOffsets\n"
+        "CONSTANTS TC <- MCTC\nBase <- MCBase\nComparatorOf <- MCCmpOf\nOffsets <- MCOffsets\nBoundaries <- MCBoundaries\n"
         "BumpKinds <- MCBumpKinds\nCaps <- MCCaps\n"
         f'Comparator = "{comparator}"\nZeroSig = "{zerosig}"\nMaxBumped = {maxbumped}\nMaxSteps = {maxsteps}\n'
         f"Emit = {'TRUE' if emit else 'FALSE'}\nSPECIFICATION Spec\n" + "".join(f"INVARIANT {i}\n" for i in invariants)
@@ -975,18 +1068,19 @@ TLC_ENV = {"JAVA_TOOL_OPTIONS": f"-DTLA-Library={os.path.join(ROOT, 'spec')} -Xm
 class Job:
     """One TLC run of SigCounters."""
 
-    def __init__(self, label, caps, comparator, zerosig, maxbumped, maxsteps, *, emit=False, cmp_of=None, workers=4):
+    def __init__(self, label, caps, comparator, zerosig, maxbumped, maxsteps, *, emit=False, cmp_of=None, workers=4, offsets=None, boundaries=(), bump_kinds=None, invariants=None):
         self.label, self.caps, self.comparator, self.zerosig = label, caps, comparator, zerosig
         self.maxbumped, self.maxsteps, self.emit, self.workers = maxbumped, maxsteps, emit, workers
         self.cmp_of = cmp_of or {"const": "repr", "geo": "repr", "zero": "repr"}
-        self.invariants = ["EmitInv"] if emit else ["TypeOK", "RunAgrees", "SigInvariant"]
+        self.invariants = invariants or (["EmitInv"] if emit else ["TypeOK", "RunAgrees", "SigInvariant"])
+        self.offsets, self.boundaries, self.bump_kinds = offsets, boundaries, bump_kinds
         self.res = None
 
     def run(self, base):
         self.res = tlc.run(
             "SigCounters",
             cfg_text(self.comparator, self.zerosig, self.maxbumped, self.maxsteps, self.emit, self.invariants),
-            mc_text=mc_text(base, self.caps, self.cmp_of),
+            mc_text=mc_text(base, self.caps, self.cmp_of, self.offsets, self.boundaries, self.bump_kinds),
             mc_name="MC_SigCounters",
             workers=min(4, self.workers),
             timeout=1500,
@@ -1032,8 +1126,21 @@ def off_str(off):
 
 
 def clean_script(script):
-    """TLC records -> instructions of the interpreter."""
-    return [{k: v for k, v in i.items() if k == "op" or v} for i in script]
+    """TLC records -> instructions of the interpreter (comp: the model's c is the component + 1)."""
+    out = []
+    for i in script:
+        if i["op"] == "comp":
+            out.append({"op": "comp", "a": i["a"], "k": i["c"] - 1})
+        else:
+            out.append({k: v for k, v in i.items() if k == "op" or v})
+    return out
+
+
+def model_ins(i):
+    """instruction of the interpreter -> record of SigCounters.tla"""
+    if i["op"] == "comp":
+        return {"op": "comp", "a": i["a"], "b": 0, "c": int(i["k"]) + 1}
+    return {"op": i["op"], "a": i.get("a", 0), "b": i.get("b", 0), "c": i.get("c", 0)}
 
 
 class Case:
@@ -1229,7 +1336,8 @@ class Checker:
     def _chain_replay(self, case, runs, fp, output):
         chains = []
         for r in runs:
-            chains.append({"seed": r.chain["seed"], "steps": [{k: v for k, v in st.items() if k != "source"} for st in r.chain["steps"][: r.n + 1]], "observe": r.n})
+            lo = r.n if r.res.get("sim") else 0  # a step with explicit numbering does not depend on the earlier steps
+            chains.append({"seed": r.chain["seed"], "steps": [{k: v for k, v in st.items() if k != "source"} for st in r.chain["steps"][lo : r.n + 1]], "observe": r.n - lo})
         return {"mode": "chains", "program": case.prog, "fingerprint": fp, "output": output, "chains": chains}
 
     def settle(self, per_mechanism):
@@ -1265,7 +1373,13 @@ class Checker:
             chains += mine
         results = self._first(chains)
         for (key, case, base, run, nm, f), (lo, n, cands) in zip(todo, plans):
-            fp, what, rep = self.reproduce(case, base, run, nm, f, guess_counter(f), cands, chains[lo : lo + n], results[lo : lo + n])
+            got = self.reproduce(case, base, run, nm, f, guess_counter(f), cands, chains[lo : lo + n], results[lo : lo + n])
+            if got is None:
+                # seen with explicit numbering only: not established for histories of the counters
+                self.ctx.count("explicit_numbering_deviation_not_reproduced_by_a_history")
+                print(f"  note: {show_prog(case.prog)}: output {nm!r} differs between the explicit numberings {off_str(base.eff)} and {off_str(run.eff)} but not after the corresponding histories (not judged)", flush=True)
+                continue
+            fp, what, rep = got
             self.ctx.violation(fp, what, rep)
             self.reported[key] = self.reported.get(key, 0) + 1
             if fp != key:
@@ -1302,6 +1416,8 @@ class Checker:
             res2 = first(chains2)
             need(res2, "stage 2")
             hit = next(((c, ch, x) for c, ch, x in zip(cands, chains2, res2) if x["sigs"][nm] != a0["sigs"][nm]), None)
+            if hit is None and (run.res.get("sim") or base.res.get("sim")):
+                return None
             if hit is None:
                 fp = "C12:process-state:signature-depends-on-earlier-work-in-the-process"
                 return fp, f"{show_prog(prog)}: output {nm!r} has signatures {base.sig(nm)[:12]} / {run.sig(nm)[:12]} in processes that ran other steps before, {a0['sigs'][nm][:12]} in every fresh process with the same counters and hash seed", self._chain_replay(case, [base, run], fp, nm)
@@ -1511,6 +1627,9 @@ def gen_script(rng):
         emit({"op": "coef", "a": pm()}, ("e", 0, frozenset()))
     for _ in range(rng.randint(0, 2)):
         emit({"op": "vcoef", "a": pm()}, ("e", 1, frozenset()))
+    if nmesh == 2 and rng.random() < 0.5:  # a coefficient on the mixed space over the MeshSequence of both meshes
+        a, b = meshes if rng.random() < 0.5 else meshes[::-1]
+        emit({"op": "scoef", "a": a, "b": b}, ("e", 1, frozenset()))
     if rng.random() < 0.4:
         emit({"op": "tcoef", "a": pm()}, ("e", 2, frozenset()))
     if rng.random() < 0.3:
@@ -1690,6 +1809,134 @@ def plan_models(ctx):
     return intended, emit, coded, (comparator, cmp_of, zerosig)
 
 
+def plan_cross(ctx, transcription, w):
+    """The cross family: terminals that embed several counters, under placement histories of all
+    those counters at once.  One TLC run emits the behaviours of the transcription that matches the
+    code under test; when that transcription IS the intended machine the same run proves
+    SigInvariant over the family, otherwise the intended machine gets its own run."""
+    comparator, cmp_of, zerosig = transcription
+    quick = ctx.tier == "quick"
+    fam, steps, kinds = (FAM_CROSS, 6, ["Mesh", "Constant"]) if quick else (FAM_CROSS_T, 7, ["Mesh", "Constant", "Coefficient"])
+    kw = dict(workers=w, offsets=[], boundaries=CROSS_BOUNDARIES, bump_kinds=kinds)
+    combined = comparator == "numeric" and zerosig == "renumbered"
+    inv = ["EmitInv", "TypeOK", "RunAgrees"] + (["SigInvariant"] if combined else [])
+    emit = Job("emit/cross-family", fam, comparator, zerosig, len(kinds), steps, emit=True, cmp_of=cmp_of, invariants=inv, **kw)
+    intended = None if combined else Job("intended/cross-family", fam, "numeric", "renumbered", len(kinds), steps, **kw)
+    return emit, intended
+
+
+def cross_part(ctx, chk, job, transcription, base, rng, corrupt=False):
+    """Every behaviour TLC enumerated for the cross family (script, placement of a digit boundary
+    inside the objects of every counted class) is replayed on the real code: all of them with
+    explicit numbering (one interpreter runs hundreds), a seeded sample with real histories (a fresh
+    interpreter can meet at most one placement per digit boundary: counters only grow).  All runs of
+    one script must have one signature (judge), and the partition of the runs by real signature
+    must be the partition by the model signature TLC printed for exactly that placement."""
+    quick = ctx.tier == "quick"
+    res = job.res
+    ctx.add_tlc(res)
+    if res.outcome != "ok":
+        tlc.require_ok(res, job.label)  # with SigInvariant among the invariants: the intended machine is wrong
+    if res.distinct < 500 or res.depth < job.maxsteps + 4:
+        raise MachineryError(f"{job.label}: suspiciously small state graph ({res.distinct} states, depth {res.depth})")
+    by_script = {}
+    for d in tlc.decode_prints(res):
+        script = clean_script(d["prog"])
+        k = json.dumps(script, sort_keys=True)
+        by_script.setdefault(k, {"script": script, "offs": {}})["offs"][tuple(int(x) for x in d["off"])] = json.dumps(d["sig"], sort_keys=True)
+    n_beh = sum(len(v["offs"]) for v in by_script.values())
+    multi = sum(1 for v in by_script.values() for o in v["offs"] if sum(1 for x in o if x) >= 2)
+    ops = {i["op"] for v in by_script.values() for i in v["script"]}
+    if not multi or "scoef" not in ops or not any(len({i["a"] for i in v["script"] if i["op"] == "const"}) > 1 for v in by_script.values()):
+        raise MachineryError(f"{job.label}: vacuous (behaviours with several shifted counters: {multi}, instructions {sorted(ops)})")
+    ctx.cov["cross_family"] = {"scripts": len(by_script), "behaviours": n_beh, "behaviours_with_several_counters_placed": multi, "boundaries": CROSS_BOUNDARIES, "counters_placed": job.bump_kinds}
+    # the scripts that are replayed (thorough: a seeded selection within a budget of runs)
+    keys = sorted(by_script)
+    rng.shuffle(keys)
+    budget = 2000 if quick else 20000
+    chosen, n = [], 0
+    for k in keys:
+        if n + len(by_script[k]["offs"]) > budget and chosen:
+            continue
+        chosen.append(k)
+        n += len(by_script[k]["offs"])
+    progs = {k: {"kind": "script", "script": by_script[k]["script"]} for k in chosen}
+    made = {}
+    for k in chosen:
+        made[k] = measure(progs[k])
+        if made[k] is None:
+            raise MachineryError(f"emitted script {show_prog(progs[k])} does not build in the real ufl")
+    seeds = hash_seeds(ctx)
+    # (1) explicit numbering: every behaviour of the chosen scripts
+    n_sim = 3 if quick else 6
+    sim = [[] for _ in range(n_sim)]
+    for n, k in enumerate(sorted(chosen, key=lambda k: -len(by_script[k]["offs"]))):
+        for off in sorted(by_script[k]["offs"]):
+            sim[n % n_sim].append({"program": progs[k], "source": "tlc-placed", "targets": dict(zip(KINDS5, off)), "sim": True})
+    chains = [{"seed": seeds[n % len(seeds)], "steps": st} for n, st in enumerate(sim) if st]
+    # (2) real histories: behaviours that place several counters, packed greedily into interpreters
+    n_real = 6 if quick else 60
+    cands = [(k, off) for k in chosen for off in sorted(by_script[k]["offs"]) if sum(1 for x in off if x) >= 2]
+    rng.shuffle(cands)
+    cands.sort(key=lambda c: max(c[1]))  # stable: lower digit boundaries first, so that an interpreter meets one per boundary
+    real = [{"floor": {K: 0 for K in KINDS5}, "steps": []} for _ in range(n_real)]
+    for k, off in cands:
+        o = dict(zip(KINDS5, off))
+        used = [K for K in KINDS5 if made[k][K]]
+        for ch in real:
+            if len(ch["steps"]) < len(CROSS_BOUNDARIES) + 1 and all(o[K] >= ch["floor"][K] for K in used):
+                ch["steps"].append({"program": progs[k], "source": "tlc-placed", "targets": {K: o[K] for K in used}, "exact": "targets"})
+                for K in used:
+                    ch["floor"][K] = o[K] + made[k][K]
+                break
+    chains += [{"seed": seeds[(n + 1) % len(seeds)], "steps": ch["steps"]} for n, ch in enumerate(real) if ch["steps"]]
+    t1 = time.time()
+    cases = chk.run_chains(chains)
+    n_runs = sum(len(c.runs) for c in cases.values())
+    n_hist = sum(1 for c in cases.values() for r in c.runs if not r.res.get("sim"))
+    print(f"  cross family: {len(cases)} of {len(by_script)} TLC-enumerated scripts, {n_runs} placements replayed ({n_hist} with real histories) in {time.time() - t1:.1f}s", flush=True)
+    if not n_hist:
+        raise MachineryError("cross family: no placement was replayed with a real history")
+    unexplained = differs = 0
+    for key, case in sorted(cases.items()):
+        k = json.dumps(case.prog["script"], sort_keys=True)
+        st = chk.judge(case)
+        if st == "invalid":
+            raise MachineryError(f"emitted script {show_prog(case.prog)} does not build in the real ufl: {case.runs[0].res.get('error')}")
+        differs += st == "differs"
+        rows = []
+        for r in case.runs:
+            if not r.ok:
+                continue
+            o = tuple(r.eff[K] if made[k][K] else 0 for K in KINDS5)
+            m = by_script[k]["offs"].get(o)
+            if m is None:
+                raise MachineryError(f"cross family: {show_prog(case.prog)} ran after the history {off_str(r.eff)}, which TLC did not enumerate")
+            rows.append((r, m + (str(len(rows)) if corrupt else "")))
+        ctx.traces(len(rows))
+        ctx.evaluated(len(rows))
+        model_of = {}
+        for r, m in rows:
+            model_of.setdefault(r.sig("form"), {})[m] = r
+        for sg, ms in model_of.items():
+            if len(ms) > 1:
+                (ra, rb) = list(ms.values())[:2]
+                raise MachineryError(
+                    f"cross family: SigCounters.tla (transcription {transcription}) gives different signatures for {show_prog(case.prog)} "
+                    f"after histories {off_str(ra.eff)} and {off_str(rb.eff)}, the real signatures are equal: the transcription does not match the code under test"
+                )
+        real_of = {}
+        for r, m in rows:
+            real_of.setdefault(m, set()).add(r.sig("form"))
+        unexplained += sum(len(v) - 1 for v in real_of.values())  # judged above: all runs must agree
+    ctx.count("cross_family_real_dependence_not_explained_by_model", unexplained)
+    ctx.cov["cross_family"].update(scripts_replayed=len(cases), placements_replayed=n_runs, placements_replayed_with_real_history=n_hist, scripts_with_discrepancy=differs)
+    c = next((c for c in cases.values() if any(i["op"] == "scoef" for i in c.prog["script"])), None)
+    if c is not None:
+        ctx.sample({"kind": "tlc-placed script", "script": show_prog(c.prog), "placements": [off_str(r.eff) for r in c.runs[:6]], "explicit_numbering": sum(1 for r in c.runs if r.res.get("sim")), "real_histories": sum(1 for r in c.runs if not r.res.get("sim"))})
+    return unexplained
+
+
 def check_intended(ctx, job):
     res = job.res
     ctx.add_tlc(res)
@@ -1759,7 +2006,7 @@ def model_signatures(ctx, base, transcription, observed):
         k = json.dumps(script, sort_keys=True)
         if k not in sidx:
             sidx[k] = len(scripts) + 1
-            scripts.append([{"op": i["op"], "a": i.get("a", 0), "b": i.get("b", 0), "c": i.get("c", 0)} for i in script])
+            scripts.append([model_ins(i) for i in script])
         cases.append([sidx[k]] + [int(eff[k2]) for k2 in KINDS5])
     mc = mc_text(base, FAM_SMALL, cmp_of).replace(
         "====\n",
@@ -2006,6 +2253,9 @@ def run(ctx, args):
         "by the harness and by the earlier steps of the same process); observables: form.signature(), the signature after renumber_indices, "
         "compute_expression_signature of bare expressions; all observables of one program must be identical over all its runs; for TLC-"
         "enumerated scripts TLC computes the model signature at exactly the observed counters and the partitions must agree; "
+        "cross family (constants on two meshes in every creation order, coefficients on a MeshSequence space): every TLC-enumerated placement of "
+        "digit boundaries inside the objects of all counted classes at once is replayed with explicit numbering (ufl_id= / count= constructor "
+        "arguments standing for the counters) and a sample with real histories, and compared with the model signature TLC printed for it; "
         "non-trivial = non-zero shift or hash seed != 0; distinct = (program, effective shift vector, hash seed)"
     )
     ctx.assume("creation order inside a program is the same in every run; only the starting values of the counters, the hash seed and the process differ")
@@ -2013,6 +2263,8 @@ def run(ctx, args):
     ctx.assume("forms with terminals of a second mesh in the integrand are valid input (multi-domain forms)")
     ctx.assume("SigCounters.tla models trees without shared sub-objects (cmp_expr as a function; its loop is bound by C29/Ordering.tla) and scalar/vector P1 spaces on triangles")
     ctx.assume("finite elements: vf/elements.py (adapted from the repository's test/utils.py)")
+    ctx.assume("runs with explicit numbering pass the numbers the global counters would give to the public constructors (Mesh(ufl_id=), Constant/Coefficient/Index/Label(count=)) for every counted object of the script; a deviation found that way is reported only when fresh interpreters with the corresponding real histories reproduce it, otherwise it is counted and not judged")
+    ctx.assume("a mixed function space over a MeshSequence of two distinct meshes (MixedElement with a CellSequence, as in test/test_mixed_function_space_with_mesh_sequence.py) with components integrated over one component mesh is valid input")
     pool = Pool()
     chk = Checker(ctx, pool)
     # the import-time counters (= Base of the model): this process has only imported ufl so far;
@@ -2023,14 +2275,21 @@ def run(ctx, args):
     ctx.cov["import_time_counters"] = base
     ctx.cov["ufl_under_test"] = os.path.dirname(os.path.realpath(ufl.__file__))
     intended, emit, coded, transcription = plan_models(ctx)
+    cross_emit, cross_intended = plan_cross(ctx, transcription, 2 if quick else 4)
+    if cross_intended is not None:
+        intended.append(cross_intended)
     rng = random.Random(1000003 * ctx.seed + (1 if quick else 2))
     ex = ThreadPoolExecutor(max_workers=3 if quick else 2)  # quick: 3 TLC x 2 workers, thorough: 2 TLC x 4 workers
     try:
-        order = emit + coded + intended
+        order = [cross_emit] + emit + coded + intended
         futs = {id(j): ex.submit(j.run, base) for j in order}
         # (c) the property on the corpus, while TLC runs
         corpus_part(ctx, chk, base, rng, t0 + (22 if quick else 360))
         print(f"  [{time.time() - t0:.0f}s] corpus judged", flush=True)
+        # (d) terminals that embed several counters, placement histories of all counters at once
+        futs[id(cross_emit)].result()
+        cross_part(ctx, chk, cross_emit, transcription, base, random.Random(7368787 * ctx.seed + (3 if quick else 4)))
+        print(f"  [{time.time() - t0:.0f}s] cross family replayed", flush=True)
         # (b) conformance of the transcription that matches the code under test
         for j in emit:
             futs[id(j)].result()
@@ -2116,7 +2375,8 @@ class _Probe:
 
 def selftest(ctx):
     """The comparison must reject (1) a recipe whose creation order depends on the history, (2) a
-    corrupted signature, (3) a corrupted model prediction; and must accept the uncorrupted inputs."""
+    corrupted signature, (3) a corrupted model prediction, (4) a corrupted model prediction for a
+    placement of the cross family; and must accept the uncorrupted inputs."""
     pool = Pool()
     # 1. order-dependent recipe must be flagged
     p = _Probe(ctx)
@@ -2161,9 +2421,23 @@ def selftest(ctx):
         if "does not match the code under test" not in str(e):
             raise
     print("selftest 3: corrupted model prediction rejected", flush=True)
-    ctx.evaluated(3)
+    # 4. the same for the placements of the cross family (explicit numbering and real histories)
+    j, _ = plan_cross(p, tr, 2)
+    j.run(base)
+    p = _Probe(ctx)
+    chk = Checker(p, pool)
+    cross_part(p, chk, j, tr, base, random.Random(5))  # clean: must not raise
+    try:
+        cross_part(p, chk, j, tr, base, random.Random(5), corrupt=True)
+        raise MachineryError("selftest: a corrupted model prediction for a placement was accepted")
+    except MachineryError as e:
+        if "does not match the code under test" not in str(e):
+            raise
+    print("selftest 4: corrupted model prediction for a placement rejected", flush=True)
+    ctx.evaluated(4)
     ctx.distinct("selftest-1")
     ctx.distinct("selftest-2")
+    ctx.distinct("selftest-4")
     ctx.rule = "selftest"
     ctx.sample({"selftest": "order-dependent recipe flagged, corrupted signature rejected, corrupted model prediction rejected"})
     print("SELFTEST-OK", flush=True)
